@@ -603,6 +603,8 @@ import math
 
 
 class NoteHistorySpec(engine.BfsSpec):
+    observe_prefix = True      # the invariant's observations are made at every step of a replayed history
+
     """bfs over the mutators of ONE Note object.  After every step everything observable (int, the six
     comparisons against fixed probes, Hz, printed form, equality with a freshly built note) must be the
     function of the note's current (name, octave) that the statement defines -- whatever was called or
